@@ -62,7 +62,7 @@ func firstUpgradeBaseline(p *Prog, pkgPath string) ([]string, string) {
 
 // C19 — upgrades.
 func checkC19(p *Prog, r *Report) {
-	r.Explain = "Decided statically (configuration evaluation): D1 every store the binary mounts (names passed to NewKVStoreKeys) either belongs to the module set that predates the first upgrade descriptor (keys of the version-map literal in the first upgrade's handler) or is Added by a registered descriptor and not Deleted by a later one; nothing mounted is Deleted without a later Added; nothing is Added twice; every Added store is mounted unless deleted later; D2 every element of Upgrades gets a handler and a store loader (both loops range over the whole Upgrades variable and are called unconditionally from New after the module manager and configurator are assigned), upgrade names are pairwise distinct, every package under app/upgrades is an element; D3 each custom module's ConsensusVersion n has migrations registered for 1..n-1; D4 no function of a registered upgrade package reaches a store mutator of the aol/did/pnft keepers."
+	r.Explain = "Decided statically (configuration evaluation): D1 every store the binary mounts (names passed to NewKVStoreKeys) either belongs to the module set that predates the first upgrade descriptor (keys of the version-map literal in the first upgrade's handler) or is Added by a registered descriptor and not Deleted by a later one; nothing mounted is Deleted without a later Added; nothing is Added twice; every Added store is mounted unless deleted later; D2 every element of Upgrades gets a handler and a store loader (both loops range over the whole Upgrades variable and are called unconditionally from New after the module manager and configurator are assigned), upgrade names are pairwise distinct, every package under app/upgrades is an element; D3 each custom module's ConsensusVersion n has migrations registered for 1..n-1; D4 no function of a registered upgrade package reaches a store mutator of the aol/did/pnft keepers. D2b the store loader is given &u.StoreUpgrades of the descriptor whose UpgradeName equals the plan name read from disk; D4b upgrade-package code that (transitively) reads aol/did/pnft entries creates no error and does not panic."
 	r.NotDec = []string{"execution of the upgrade block on a populated chain", "SDK migrations", "upgrade-info.json handling", "restart around the upgrade height"}
 	r.Trusted = []string{"cosmos-sdk v0.47.12 x/upgrade, store loader, module.Manager.RunMigrations"}
 	kp := func(rule, rest string) string { return rule + ":C19:" + rest }
@@ -389,6 +389,9 @@ func checkC19(p *Prog, r *Report) {
 				hit = what + " via " + reach.Chain(f)
 				break
 			}
+		}
+		if r.Tier == "thorough" {
+			vtaCrossCheck(p, r, kp("REACH", "upgrade:"+uname+"#vta-cross-check"), fns, func(f *ssa.Function) (string, bool) { return isMut(f) }, reach, nil)
 		}
 		r.Check(hit == "", kp("REACH", "upgrade:"+uname+"#custom-data-untouched"), "no code of a registered upgrade package reaches a store mutator of the aol/did/pnft keepers (definite call edges)", "app/upgrades",
 			fmt.Sprintf("%d functions reachable, none mutates custom-module data", len(reach.Order)), "upgrade "+uname+" rewrites "+hit)
